@@ -173,19 +173,14 @@ func c16Workload(g *rand.Rand, port int, dur time.Duration) int {
 			return [][]string{{"SELECT", db}, a}
 		}
 	}
-	// two connections in different databases that issue the same number of commands per round, so that the
-	// per-database command numbers stay close and cross again and again (lock ownership is recognised by id), one
-	// of them sending its transaction into the other's database; a third connection works there unlocked-for
-	twinA := func(c *Conn, r *rand.Rand) [][]string {
-		return [][]string{{"SELECT", "9"}, {"MULTI"}, {"SELECT", "10"}, {"INCR", "kx"}, {"RPUSH", "kxl", "a"}, {"LPOP", "kxl"}, {"EXEC"}}
+	// random-member and random-key commands at the same time in two further databases (shared generators)
+	randDb := func(db string) func(c *Conn, r *rand.Rand) [][]string {
+		return func(c *Conn, r *rand.Rand) [][]string {
+			return [][]string{{"SELECT", db}, {"SADD", "ks", "a", "b", "c", "d", "e"}, {"HSET", "kh", "f1", "1", "f2", "2", "f3", "3"}, {"SRANDMEMBER", "ks", "-20"}, {"HRANDFIELD", "kh", "-20"},
+				{"SRANDMEMBER", "ks", "3"}, {"HRANDFIELD", "kh", "2", "WITHVALUES"}, {"SPOP", "ks"}, {"RANDOMKEY"}, {"SRANDMEMBER", "ks"}, {"HRANDFIELD", "kh"}}
+		}
 	}
-	twinB := func(c *Conn, r *rand.Rand) [][]string {
-		return [][]string{{"SELECT", "10"}, {"MULTI"}, {"PING"}, {"INCR", "kx"}, {"RPUSH", "kxl", "b"}, {"LPOP", "kxl"}, {"EXEC"}}
-	}
-	twinC := func(c *Conn, r *rand.Rand) [][]string {
-		return [][]string{{"SELECT", "10"}, {"INCR", "kx"}, {"SET", fmt.Sprintf("kx%d", r.Intn(50)), "v"}, {"LLEN", "kxl"}, {"DEL", fmt.Sprintf("kx%d", r.Intn(50))}}
-	}
-	fns := []func(c *Conn, r *rand.Rand) [][]string{twinA, twinB, twinC, mirror("5"), mirror("6"), mirror("7"), data, data, data, intro, intro, sel, tx, tx, blocker, blocker, feeder, flusher, selmany, xwatch, sel, blocker2, blocker2, pairW, pairR, pairR, pairW}
+	fns := []func(c *Conn, r *rand.Rand) [][]string{randDb("11"), randDb("12"), mirror("5"), mirror("6"), mirror("7"), data, data, data, intro, intro, sel, tx, tx, blocker, blocker, feeder, flusher, selmany, xwatch, sel, blocker2, blocker2, pairW, pairR, pairR, pairW}
 	for i, f := range fns {
 		wg.Add(1)
 		go worker(i, f, i%3 == 0)
@@ -340,7 +335,7 @@ func runC16(cfg runCfg, res *Result) error {
 		sites = append(sites, s)
 	}
 	sort.Strings(sites)
-	res.Samples = append(res.Samples, fmt.Sprintf("27 concurrent connections for %v: the command mix at the same time in three further databases x data commands x introspection x SELECT (16 databases)/FLUSH x MULTI/EXEC (also with keys watched in another database) x blocking commands (in four databases) x writer/reader pairs on one key per type x reconnects, saver pass every 7 ms, a second emulator started and closed", dur))
+	res.Samples = append(res.Samples, fmt.Sprintf("26 concurrent connections for %v: the command mix at the same time in three further databases x data commands x introspection x SELECT (16 databases)/FLUSH x MULTI/EXEC (also with keys watched in another database) x blocking commands (in four databases) x writer/reader pairs on one key per type x reconnects, saver pass every 7 ms, a second emulator started and closed", dur))
 	for _, s := range sites {
 		m := &Mismatch{Index: -1, Op: "data race", Why: "the race detector reports unsynchronised accesses at " + s}
 		known := false
